@@ -2,6 +2,8 @@ SPECIFICATION GSpec
 CONSTANTS Dev = "tcp"
  Fl = "sync"
  R = 10
+ Slack = 1
+ Focus = "all"
  MaxConn = 6
  MaxTime = 200
 CHECK_DEADLOCK FALSE
